@@ -65,22 +65,24 @@ def variants(base, lay, thorough):
     size, off, loff, lm = lay["size"], lay["off"], lay["loff"], lay["lm"]
     V = []
 
-    def v(tag, cfg, thr, pcs=0, np=1, nw=1, nb=0, tmo=300):
+    def v(tag, cfg, thr, pcs=0, np=1, nw=1, nb=0, tmo=300, rd=(), ro=0):
         d = dict(base)
-        d.update(id="%s.%s" % (base["id"], tag), cfg=cfg, thr=thr, pcs=pcs, np=np, nw=nw, nb=nb, tmo=tmo, cache="dir")
+        d.update(id="%s.%s" % (base["id"], tag), cfg=cfg, thr=thr, pcs=pcs, np=np, nw=nw, nb=nb, tmo=tmo, cache="dir",
+                 rd=[x for x in rd if x <= lay["nf"]], ro=ro)
         V.append(d)
+    nf = lay["nf"]
     if lm == "prefetch":
-        v("w", 10 ** 6, 0, np=2, nw=2)                          # callers and waiters, no threshold
-        v("async", 10 ** 6, max(1, loff // 2), np=1, nw=2, pcs=2 * base["cs"])   # threshold below the landmark offset
-        v("bg", 10 ** 6, 0, np=1, nw=1, nb=2, tmo=1000)          # with background fetch; timeout through the config
+        v("w", 10 ** 6, 0, np=2, nw=1, rd=[1])                                  # two Prefetch callers and a waiter, no threshold
+        v("async", 10 ** 6, max(1, loff // 2), nw=2, pcs=2 * base["cs"])       # two waiters, threshold below the landmark offset
+        v("bg", 10 ** 6, 0, nw=0, nb=1, tmo=1000, rd=[2, nf], ro=1)            # background fetch, prioritized tasks, registry off at the end
     elif lm == "noprefetch":
-        v("w", 10 ** 6, 0, np=2, nw=2)
-        v("bg", size // 2, 1, np=1, nw=1, nb=1)
+        v("w", 10 ** 6, 0, np=2, nw=1, rd=[2])
+        v("bg", size // 2, 1, nw=1, nb=1, rd=[nf], ro=1)
     else:
         mid = off[1] if len(off) > 1 else size // 2
-        v("exact", mid, 0, np=1, nw=2)                           # configured size = offset of a file ( < versus <= )
-        v("mid", mid + 150, mid, np=1, nw=1, nb=1, pcs=2 * base["cs"])  # ends inside that file; threshold just below
-        v("big", size + 1000, size + 500, np=2, nw=1, nb=1)      # beyond the blob: capped, and the cap is below the threshold
+        v("exact", mid, 0, nw=1, rd=[1, 2])                                     # configured size = offset of a file ( < versus <= )
+        v("mid", mid + 150, mid, nw=1, nb=1, pcs=2 * base["cs"], rd=[], ro=1)  # ends inside that file; threshold just below
+        v("big", size + 1000, size + 500, nw=2, rd=[nf])                        # beyond the blob: capped, and the cap is below the threshold
     return V
 
 
@@ -97,7 +99,7 @@ def tla(v):
     raise ValueError(v)
 
 
-FIELDS = ["id", "nf", "off", "span", "pre", "prf", "prio", "lm", "loff", "size", "cs", "cfg", "thr", "f0", "rd", "np", "nw", "nb"]
+FIELDS = ["id", "nf", "off", "span", "pre", "prf", "prio", "lm", "loff", "size", "cs", "cfg", "thr", "f0", "rd", "ro", "np", "nw", "nb"]
 
 
 def scen_module(scens):
@@ -174,7 +176,13 @@ def check(run):
         run.tlc_mc("PrefetchMC", "Prefetch_live.cfg", None, workers=4, timeout=900, name="Prefetch_live.cfg (WaitReturns, fairness)")
         for g, exp in GUARDS:
             run.tlc_negctl("PrefetchMC", "Prefetch_mcq.cfg", {g: "FALSE"}, exp, drop=INTERNAL)
-        run.tlc_negctl("PrefetchMC", "Prefetch_live.cfg", {"WaitHonoursTimeout": "FALSE"}, ["WaitReturns", "<temporal>"], drop=("WaitNeverStuckE",))
+        txt = re.sub(r"INVARIANTS WaitNeverStuckE", "", run.cfg_text("Prefetch_live.cfg", {"WaitHonoursTimeout": "FALSE"}))
+        lr = run.tlc("PrefetchMC", txt, None, 4, 600)
+        ok = "Temporal property WaitReturns was violated" in lr.out or lr.violated == "<temporal>"
+        log("[negctl] Prefetch_live.cfg WaitHonoursTimeout=FALSE -> %s" % ("WaitReturns violated OK" if ok else "NOT DETECTED"))
+        if not ok:
+            raise Inconclusive("negative control of the liveness property not detected: %s" % lr.error)
+        run.cov["stages"].append({"stage": "negctl", "config": "Prefetch_live.cfg", "off": {"WaitHonoursTimeout": "FALSE"}, "violated": "WaitReturns"})
     mex = ThreadPoolExecutor(1)
     mfut = mex.submit(model_stage)
 
@@ -190,7 +198,7 @@ def check(run):
     for b, e in zip(base, lays):
         for v in variants(b, e["sc"], thorough):
             s = dict(e["sc"])
-            s.update(id=v["id"], cfg=v["cfg"], thr=v["thr"], np=v["np"], nw=v["nw"], nb=v["nb"])
+            s.update(id=v["id"], cfg=v["cfg"], thr=v["thr"], np=v["np"], nw=v["nw"], nb=v["nb"], rd=v["rd"], ro=v["ro"])
             v["_sc"] = s
             scens.append(v)
     log("[layers] %d layers, %d scenarios: %s" % (len(base), len(scens), " ".join(v["id"] for v in scens)))
@@ -211,6 +219,9 @@ def check(run):
         ed = [e for e in edges if e["from"]["sid"] == sid]
         walks, st = edge_cover(ini, ed, maxlen=22, rng=run.rng, extra_walks=(30 if thorough else 4))
         exhaustive = exhaustive and st["covered"] == st["edges"]
+        cap = int(os.environ.get("C15_MAXWALKS", "0") or "0")     # development aid: replay only the first walks of each scenario
+        if cap and len(walks) > cap:
+            walks, exhaustive = walks[:cap], False
         v["walks"] = [[{k: x for k, x in s.items() if k not in ("post", "req")} | {"act": s["act"]} for s in w] for w in walks]
         nsteps += st["steps"]
         run.cov["stages"].append(dict(stage="edge-cover", graph=sid, **st))
